@@ -278,6 +278,21 @@ def makeConverter():
 
 
 defaultConverter = Converter()
+
+
+def size(items):
+    total = len(items)
+    return total
+
+
+def length(values):
+    count = len(values)
+    return count
+
+
+def extent(things):
+    number = len(things)
+    return number
 '''
 USES = {
     "run": ("from lib import run", "print(run('x'))"), "join": ("import lib", "print(lib.join(['a', 'b']))"), "describe": ("from lib import describe as d", "print(d(3))"),
@@ -294,6 +309,8 @@ USES = {
     # methods of a class the client never names: reached through a factory or a module-level instance
     "factory:Converter.toCelsius": ("from lib import makeConverter", "print(makeConverter().toCelsius(212))"), "instance:Converter.toKelvin": ("import lib", "print(lib.defaultConverter.toKelvin(1))"),
     "factory:Converter.toKelvin": ("from lib import makeConverter as mk", "print(mk().toKelvin(2))"),
+    # equivalent functions (same code up to parameter / local names) that the library itself never calls: two / all of them preserved
+    "equivalent:size+length": ("from lib import size, length", "print(size([1]), length([1, 2]))"), "equivalent:extent": ("import lib", "print(lib.extent('abc'))"),
     # getattr / hasattr with a literal name is beyond the tool's reach by design: not part of the space
 }
 
